@@ -10,7 +10,8 @@
      shadowed by a local in parsec_hwloc_init), so every "for ht < nbht" loop
      runs once and the ht field of a bound thread is -1;
    - the process is MPI rank 0 (MPI not initialised => rank stays 0);
-   - the "hwloc" map depends on the machine topology and is not modelled;
+   - the "hwloc" map is modelled separately (hwloc_map, end of the file) over the
+     socket sizes hwloc reports; the dispatcher vpmap_init answers Unmodelled for it;
    - numbers in the inputs fit an int (no strtol/sscanf overflow). *)
 From Coq Require Import ZArith List Bool Ascii.
 Import ListNotations.
@@ -482,4 +483,27 @@ Definition user_flat_bindings (allowed : list Z) (sing nb : Z) : option (list Z)
   match flat R sing (init_nb R nb) with
   | Map _ _ [ths] => Some (apply_locations allowed [] R ths)
   | _ => None
+  end.
+
+(* ---- parsec_vpmap_init_from_hardware_affinity(nbthreads): the "hwloc" map ------
+   [sockets] = number of cores of every object at the socket / NUMA level
+   (parsec_hwloc_nb_cores_per_obj), in order; parsec_nbht = 1.  One virtual
+   process per object, one thread per core in hwloc order; the thread that
+   brings the count-down to 0 closes its VP (trimmed to the threads placed so
+   far) and the map (parsec_nbvp = vp_id + 1).  Second component: the static
+   counter parsec_nb_total_threads, which adds the full size of every visited
+   object -- also of the trimmed one (no reader of that counter in the tree). *)
+Fixpoint hw_loop (sockets : list Z) (core_id left : Z) : list (list thread) * Z :=
+  match sockets with
+  | [] => ([], 0)
+  | n :: rest =>
+      let mk := fun k => map (fun c => mkt 1 0 (Fin [c])) (zseq core_id (Z.to_nat k)) in
+      if (1 <=? left) && (left <=? n) then ([mk left], n)
+      else let '(vs, tot) := hw_loop rest (core_id + n) (left - n) in (mk n :: vs, n + tot)
+  end.
+Definition hwloc_map (sockets : list Z) (R sing nb : Z) : outcome :=
+  match sockets with
+  | [] => flat R sing nb                               (* parsec_nbvp <= 0: the flat map *)
+  | _ => let '(vs, tot) := hw_loop sockets 0 nb in
+         Map (Z.of_nat (length vs)) tot (map (map (consolidate sing)) vs)
   end.
